@@ -148,7 +148,7 @@ def run(chk):
     chk.trusted += ['harness/c10.py stubs for the provider (dul.send / dul.receive)']
     rnd = common.rng('c10')
     grid = list(GRID)
-    extra = [rnd.randrange(7, 2 ** 32) for _ in range(4 if chk.tier == 'quick' else 40)] + [9, 100, 65535, 65537]
+    extra = [rnd.randrange(7, 2 ** 32) for _ in range(4 if chk.tier == 'quick' else 150)] + [9, 100, 65535, 65537]
     pairs = [(o, p) for o in grid for p in grid] + [(o, p) for o in extra for p in rnd.sample(grid, 3)] + \
             [(o, p) for p in extra for o in rnd.sample(grid, 3)]
     ops, got, keys = [], [], []
